@@ -100,7 +100,7 @@ contract(
     returns=Opt(Ref("Binding")),
     ensures=["result is first_binding(target_set.values, key)", "heap_unchanged()"],
     domain=lambda tier: _values_domain(lambda s, k: {"target_set": s, "key": k})(tier),
-    props=["C05", "C12", "C14"],
+    props=["C05", "C12", "C14", "C08", "C04", "C19"],
 )
 
 contract(
@@ -111,7 +111,7 @@ contract(
     loops={0: Loop(invariant=["all(not (isinstance(target_set.values[j], Binding) and target_set.values[j].nested and "
                               "target_set.values[j].name == root) for j in range(_i))"])},
     domain=lambda tier: _values_domain(lambda s, k: {"target_set": s, "root": k})(tier),
-    props=["C05", "C12", "C14"],
+    props=["C05", "C12", "C14", "C08", "C04", "C19"],
 )
 
 contract(
@@ -123,7 +123,7 @@ contract(
         "all(not (isinstance(values[j], Binding) and values[j].name == key and (nested is None or values[j].nested == nested)) "
         "for j in range(_i))"])},
     domain=False,
-    props=["C05", "C12", "C14"],
+    props=["C05", "C12", "C14", "C08", "C04", "C19"],
 )
 
 # ---------------------------------------------------------------------------------------------
@@ -167,6 +167,8 @@ contract(
         exsures={"ValueError": [], "KeyError": []})}),
     modifies=["*"],
     call_asserts={
+        # C07: what is checked for well-formedness is the VALUE text itself, not a cleaned-up copy of it
+        "parse#0": ["source_code == value"],
         # C07: nothing is resolved or edited before the value is known to be exactly one non-raw expression
         "_resolve_target_set": [_VALID_VALUE, "len(source.expressions) == 1"],
         "_resolve_npath": [_VALID_VALUE, "len(source.expressions) == 1"],
